@@ -70,3 +70,32 @@ def gen_two_roots_inner(rng: random.Random) -> Dict[str, Any]:
     groups.append({"name": "D1", "kind": "derived", "cfw": ccfw, "features": feats})
     return {"groups": groups, "request": [rng.choice(list(feats))],
             "links": [{"jt": "INNER", "l": "R0", "r": "R1", "li": ["k"], "ri": ["k"]}]}
+
+
+def gen_linked_roots(rng: random.Random, max_roots: int = 4, jts=("INNER", "LEFT", "OUTER", "RIGHT", "APPEND", "UNION"),
+                     same_key_prob: float = 0.6) -> Dict[str, Any]:
+    """2..max_roots root groups, a tree-shaped link set (chain or star, random orientation and join type), frameworks per
+    root, one consumer group over one column of every root (optionally a second level)."""
+    n = rng.randrange(2, max_roots + 1)
+    cfws = [rng.choice(CFWS) for _ in range(n)]
+    groups: List[Dict[str, Any]] = []
+    rows = rng.randrange(2, 4)
+    for i in range(n):
+        key = "k" if rng.random() < same_key_prob else f"k{i}"
+        groups.append({"name": f"R{i}", "kind": "root", "cfw": cfws[i],
+                       "cols": {f"v{i}": [rng.randrange(0, 9) for _ in range(rows)], key: list(range(1, rows + 1))},
+                       "key": key})
+    links = []
+    star = rng.random() < 0.5
+    for i in range(1, n):
+        a = 0 if star else i - 1
+        l, r = (a, i) if rng.random() < 0.7 else (i, a)
+        links.append({"jt": rng.choice(jts), "l": f"R{l}", "r": f"R{r}", "li": [groups[l]["key"]], "ri": [groups[r]["key"]]})
+    ccfw = rng.choice(cfws)
+    feats = {"f1": {"inputs": [f"v{i}" for i in range(n)], "c0": 0, "coefs": [1] * n}}
+    if rng.random() < 0.4:
+        feats["f2"] = {"inputs": ["f1"], "c0": 1, "coefs": [2]}
+    groups.append({"name": "D1", "kind": "derived", "cfw": ccfw, "features": feats})
+    for g in groups:
+        g.pop("key", None)
+    return {"groups": groups, "request": [rng.choice(list(feats))], "links": links}
